@@ -132,9 +132,10 @@ def execute(case, which):
             sim.regs = _Regs(lambda a, s=salt: (a * 29 + s) & 0x7FFF)
         lr = LoggingResponder(siminv.responder_for(inv, sim), cfg.get("tcp", False))
         siminv.attach_direct(inv, lr)
-        run_sync(inv.read_device_info())
+        if not spec.get("no_info"):      # no_info: the application built the object itself and never identified it
+            run_sync(inv.read_device_info())
         # eco group contents
-        if cfg["family"] != "DT":
+        if cfg["family"] != "DT" and not spec.get("no_info"):
             v2 = spec["variant"] in V2
             for n, kind in enumerate(spec["groups"], start=1):
                 s = inv._settings["eco_mode_%d" % n]
@@ -538,6 +539,11 @@ def refusal_pair_job(job):
                         "seq": {"A": sa, "B": sb}, "merge": merge}
                 acc.nontrivial("refusal-pair", va, vb, start, style)
                 _apply(acc, case)
+                if style != 2 and not va.startswith("ES"):
+                    # the same with objects that were never identified (no read_device_info(): the import-time definitions are in use)
+                    c2 = {"objects": {k: dict(v, no_info=True) for k, v in case["objects"].items()}, "seq": case["seq"], "merge": case["merge"]}
+                    acc.nontrivial("refusal-pair-unidentified", va, vb, start, style)
+                    _apply(acc, c2)
                 if len(acc.samples) < 1:
                     acc.sample(case)
     harness.import_goodwe(fresh=True)
